@@ -199,7 +199,8 @@ func (cr *checkRun) runNative(pkgKey, tags, fn string, model map[string]uint64, 
 }
 
 func runNativeBin(bin, dir, fn, cexPath string, timeout time.Duration) (*nativeResult, error) {
-	cmd := exec.Command(bin, "-test.run", "^TestVerifReplay$", "-test.v", "-test.timeout", timeout.String())
+	// address-space limit: a request beyond the by-design allocation ceiling aborts instead of thrashing
+	cmd := exec.Command("sh", "-c", `ulimit -v 16777216; exec "$0" "$@"`, bin, "-test.run", "^TestVerifReplay$", "-test.v", "-test.timeout", timeout.String())
 	cmd.Dir = dir
 	cmd.Env = append(os.Environ(), "VERIF_HARNESS="+fn, "VERIF_CEX="+cexPath, "GOMEMLIMIT=2GiB")
 	done := make(chan struct{})
